@@ -178,7 +178,9 @@ def handover(ctx):
             hcs = [x for x in subterms(v) if isinstance(x, tuple) and x and x[0] == "agg" and x[1] == conn.HC]
             ok = len(hcs) == 1
             if ok:
-                a = look(hcs[0][3][hc_names.index("payload_max_size")])
+                from .util import struct_field_value
+                a0 = struct_field_value(facts, hcs[0], "payload_max_size")
+                a = look(a0) if a0 is not None else ("unknown", "payload_max_size not readable from the literal")
                 if a[0] == "field" and look(a[1]) == ("arg", 1) and a[3].isdigit() and f.d["kind"] == "closure":
                     caps = closure_captures(ctx, f.name)
                     a = look(caps[int(a[3])]) if caps and int(a[3]) < len(caps) else a
